@@ -1,38 +1,17 @@
 (* C01: control flow, part 4 -- from the parsed program to the run of the VM, and a program that meets every premise. *)
 From BL Require Import Base.Prelude Base.Floats Mach.Val Mach.Ops Mach.Func Mach.Var
      Lang.Token Lang.Lex Lang.Ast Lang.Parse Mach.Compile Mach.Listing Mach.Runtime Spec.Sem
-     Proofs.ExprCompile Proofs.Slicing Proofs.Reloc Proofs.Flow Proofs.Flow2 Proofs.Flow3.
+     Proofs.ExprCompile Proofs.Slicing Proofs.Reloc Proofs.Flow Proofs.Flow2 Proofs.Flow3 Proofs.LineLit.
 From Coq Require Import Lia String.
 Local Open Scope N_scope.
 
 (* ---------- the parser's line-number literals ---------- *)
 (* Parse.lnum_expr writes the target n of a branch as the Single f32_of_Z n.  For every line number there is (0..65529)
    the compiler's reading of that literal (TryFrom<Val> for LineNumber) and the reference reading (truncation) both
-   give n back.  The domain is finite: the statement is checked for each of its 65530 members by computation. *)
-Definition lit_ok (n : N) : bool :=
-  match to_line_number (VSng (f32_of_Z (Z.of_N n))) with
-  | Ok m => (m =? n) && (Z.to_N (f32_to_Z (f32_of_Z (Z.of_N n))) =? n)
-  | _ => false
-  end.
-Fixpoint upto (k : nat) (n : N) : list N := match k with O => [] | S k' => n :: upto k' (n + 1) end.
-
-Lemma upto_in : forall k a n, a <= n < a + N.of_nat k -> In n (upto k a).
-Proof.
-  induction k as [| k IH]; intros a n H; [cbn in H; lia |]. rewrite Nat2N.inj_succ in H. cbn [upto]. destruct (N.eq_dec a n) as [-> | Hne]; [left; reflexivity |].
-  right. apply IH. lia.
-Qed.
-
-Lemma literal_sweep : forallb lit_ok (upto (N.to_nat 65530) 0) = true.
-Proof. vm_cast_no_check (eq_refl true). Qed.
-
+   give n back: Proofs/LineLit.v, from Flocq's specification of binary32. *)
 Theorem line_literal_ok : forall n, n <= 65529 ->
   target_is (f32_of_Z (Z.of_N n)) n /\ Z.to_N (f32_to_Z (f32_of_Z (Z.of_N n))) = n.
-Proof.
-  intros n Hn. pose proof literal_sweep as H. rewrite forallb_forall in H. 
-  assert (Hin : In n (upto (N.to_nat 65530) 0)) by (apply upto_in; rewrite N2Nat.id; lia). specialize (H n Hin).
-  unfold lit_ok in H. unfold target_is. destruct (to_line_number (VSng (f32_of_Z (Z.of_N n)))) as [m | | |]; try discriminate.
-  apply andb_prop in H. destruct H as [H1 H2]. apply N.eqb_eq in H1, H2. subst m. split; [reflexivity | exact H2].
-Qed.
+Proof. intros n Hn. unfold target_is. exact (line_literal_all n Hn). Qed.
 
 (* ---------- from the parsed lines to the run ---------- *)
 Section EndToEnd.
